@@ -14,9 +14,13 @@
 //   hyst       SATOPTS HYSTER, EHYSTR (Carlson 0/1, Killough 2/3/4), IMBNUM: random saturation histories (200 steps,
 //              1..5 reversals) are driven through EclMaterialLawManager::updateHysteresis(); a trace checker that keeps
 //              the extreme saturation reached so far demands the drainage curve at or beyond that extreme, continuity
-//              of the scanning curve at the reversal point, monotone scanning curves, and "nothing changes" for
-//              Carlson's model with identical drainage and imbibition curves.  The drainage reference is a second
-//              manager built from the same deck without SATOPTS/EHYSTR/IMBNUM.
+//              of the scanning curve at the reversal point, monotone scanning curves, the manager's own record of the
+//              extreme oil / gas saturation equal to the extreme of the history, and "nothing changes" for Carlson's
+//              model with identical drainage and imbibition curves.  The drainage reference is a second manager built
+//              from the same deck without SATOPTS/EHYSTR/IMBNUM.  A third of these cases adds two-point ENDSCALE with
+//              drainage and I-prefixed imbibition arrays.
+// Two input classes with known findings have their own keys and are confined to a stated fraction of the cases
+// (struct Beyond; iArraysWithoutImbnum in caseHyst).
 // Three-phase interpolation formulas are not examined: with STONE1/STONE2 the oil value of route "3p" is skipped, and
 // with the default model the blend within 1e-5 of the connate water saturation is avoided.
 #include <config.h>
@@ -180,7 +184,7 @@ static Tab genTab(Rng& rng, const TabOpts& o) {
     for (int k : t.swi) t.sw.push_back(k / (double)L);
     t.krw = increasing(rng, nw, zw, rng.chance(0.3) ? 1.0 : rng.uniform(0.2, 1.0), o.pPlateau);
     t.krow = decreasing(rng, nw, zo, rng.chance(0.3) ? 1.0 : rng.uniform(0.3, 1.0), o.pPlateau);
-    double pmax = rng.loguniform(0.05, 3.0) * (o.punit > 2e5 ? 1.0 : 1.0) * (o.punit == PSI ? 14.5 : 1.0);
+    double pmax = rng.loguniform(0.05, 3.0) * (o.punit == PSI ? 14.5 : 1.0);      // bar resp. psi
     if (o.zeroPc && rng.chance(0.12)) t.pcow.assign(nw, 0.0);
     else t.pcow = decreasing(rng, nw, (int)rng.range(0, nw - 1), pmax, 0.15);
 
@@ -1154,10 +1158,8 @@ static void caseHyst(vh::Reporter& rep, long idx, Rng& rng, int steps, bool allo
                     cx.closeLazy([] { return std::string("hyst-reversal-point:oil-water"); }, [&] { return where() + " largest oil saturation kept by the manager vs. largest of the history"; }, soMax, maxSo, 1e-12);
                     cx.closeLazy([] { return std::string("hyst-reversal-point:gas-oil"); }, [&] { return where() + " largest gas saturation kept by the manager vs. largest of the history"; }, sgMax, maxSg, 1e-12);
                 }
-                bool newExtreme = false;
-                for (int route = 0; route < 2; ++route) if (x < tr[route].xmin) { tr[route].xmin = x; tr[route].scan.clear(); newExtreme = true; }
+                for (int route = 0; route < 2; ++route) if (x < tr[route].xmin) { tr[route].xmin = x; tr[route].scan.clear(); }
                 // --- after the update at turning points, at the end and now and then: the whole curve
-                (void)newExtreme;
                 if (identical || !(h.turn[k] || k + 1 == h.s.size() || rng.chance(0.03))) continue;
                 for (int route = 0; route < 2; ++route) {
                     if (!ch.supported(route, KRN)) continue;
